@@ -83,7 +83,15 @@ async fn scenario(sim: Arc<Sim>, unit: Value) -> Obs {
             (n1, n2)
         }
     } else {
-        (sim.start(&NodeSpec::new(ka)).unwrap(), sim.start(&NodeSpec::new(kb)).unwrap())
+        // optionally one side runs with a connection limit that leaves exactly one free slot
+        let lim = |side: &str| {
+            let mut c = anemo::Config::default();
+            if unit["limit_side"].as_str() == Some(side) {
+                c.max_concurrent_connections = Some(1);
+            }
+            c
+        };
+        (sim.start(&NodeSpec::new(ka).config(lim("a"))).unwrap(), sim.start(&NodeSpec::new(kb).config(lim("b"))).unwrap())
     };
     let (na, nb) = (sim.node_of(&a), sim.node_of(&b));
     sim.fabric.set_latency_us(na, nb, lat_ab * 1000);
@@ -332,6 +340,16 @@ impl Check for C05 {
                             Tier::Thorough => 2 + usize::from(diag && lab == 5 && off == 0),
                         };
                         u.push(json!({"kind":"simnet","a_greater":a_greater,"offset_ms":off,"lat_ab_ms":lab,"lat_ba_ms":lba,"bound":bound,"fate_budget":60}));
+                    }
+                }
+            }
+        }
+        // one side with a connection limit of 1 (one free slot)
+        for a_greater in [false, true] {
+            for off in [-7i64, -3, 0, 3, 7] {
+                for (lab, lba) in [(1u64, 1u64), (5, 5), (9, 1), (1, 9)] {
+                    for side in ["a", "b"] {
+                        u.push(json!({"kind":"simnet","limit_side":side,"a_greater":a_greater,"offset_ms":off,"lat_ab_ms":lab,"lat_ba_ms":lba,"bound":tier.pick(0, 1),"fate_budget":60}));
                     }
                 }
             }
